@@ -14,7 +14,7 @@ func TestCheck(t *testing.T) {
 	vcommon.Main(t, "C13",
 		vcommon.S("value", 280000, 8400000, genValueCase(), checkValue),
 		vcommon.S("doc", 512000, 15360000, genDocCase(), checkDoc),
-		vcommon.S("shared", 48000, 1440000, genSharedCase(), checkValue),
+		vcommon.S("shared", 32000, 960000, genSharedCase(), checkValue),
 		vcommon.S("nonfinite", 32000, 960000, genNonFiniteCase(), checkNonFinite),
 		vcommon.S("defaults", 64000, 1920000, genDefCase(), checkDefaults),
 		vcommon.S("mutate", 48000, 1440000, genMutCase(), checkMutate),
